@@ -283,14 +283,20 @@ def dask_roundtrip(rep, acc, sc, cfg):
     rng = random.Random(cfg['seed'])
     meta = {'stream': 'roundtrip', 'path_kind': 'dask', 'cfg': cfg, 'index_kind': cfg['index_kind']}
     frames, paths, written = [], [], []
-    for j in range(cfg.get('ndatasets', 1)):
-        df, desc = U.make_frame(rng, cfg['nrows'], geom_cols(rng, cfg['kinds'], cfg['subtypes']),
+    nds = cfg.get('ndatasets', 1)
+    # several datasets: directory names whose sorted order is NOT the order they are given in
+    # (b before a, a nested directory with a number in its path that sorts first)
+    names = ['ds'] if nds == 1 else ['ds_b_west', 'ds_a_east', os.path.join('dr_nest', 'in.2', 'c_mid')][:nds]
+    nparts = [cfg['npartitions']] if nds == 1 else \
+        [max(2, cfg['npartitions']), cfg.get('npartitions2', 11), 2][:nds]
+    for j in range(nds):
+        df, desc = U.make_frame(rng, max(cfg['nrows'], nparts[j]), geom_cols(rng, cfg['kinds'], cfg['subtypes']),
                                 index_kind=cfg['index_kind'], derive_steps=cfg['derive'], nan_p=cfg['nan_p'])
         if j:
             df = df[list(frames[0].columns)]
             df['v'] = df['v'] + 5000 * j
-        ddf = dd.from_pandas(df, npartitions=cfg['npartitions'], sort=cfg['sort'])
-        path = sc.new('ds' + 'ab'[j])
+        ddf = dd.from_pandas(df, npartitions=nparts[j], sort=cfg['sort'])
+        path = os.path.join(sc.dir, names[j])
         try:
             ddf.to_parquet(path, compression=cfg['compression'])
         except Exception as e:
@@ -299,17 +305,29 @@ def dask_roundtrip(rep, acc, sc, cfg):
         frames.append(df)
         paths.append(path)
         written.append(ddf)
-    exp = written[0].compute() if len(written) == 1 else None
     import pandas as pd
-    parts = [w.partitions[i].compute() for w in written for i in range(w.npartitions)]
-    exp = pd.concat(parts) if len(parts) > 1 else parts[0]
-    if cfg.get('ndatasets', 1) == 1:
-        arg_list = [('single', paths[0])]
+    parts_by_ds = [[w.partitions[i].compute() for i in range(w.npartitions)] for w in written]
+    projs = cfg.get('projections') or projections(rng, frames[0], cfg['quick'])
+    if nds == 1:
+        arg_list = [('single', paths[0], [0], projs)]
     else:
-        arg_list = [('list', list(paths)), ('glob', os.path.join(os.path.dirname(paths[0]), 'ds*'))]
-    for how, arg in arg_list:
-        for proj in (cfg.get('projections') or projections(rng, frames[0], cfg['quick'])):
-            m = {**meta, 'columns': proj, 'how': how}
+        given = list(range(nds))
+        rev = given[::-1]
+        by_path = sorted(range(min(nds, 2)), key=lambda i: paths[i])     # the glob sees ds_a_east, ds_b_west
+        arg_list = [('list', [paths[i] for i in given], given, projs),
+                    ('list-reversed', [paths[i] for i in rev], rev, projs[:2]),
+                    ('glob', os.path.join(sc.dir, 'ds_*'), by_path, projs[:1])]
+        if nds == 3:
+            rot = [2, 0, 1]
+            arg_list.append(('list-rotated', [paths[i] for i in rot], rot, projs[:1]))
+    for how, arg, order, hprojs in arg_list:
+        # rows come back dataset by dataset in the order the paths were GIVEN (glob: expansion order),
+        # inside a dataset in part-number order
+        parts = [p for i in order for p in parts_by_ds[i]]
+        exp = pd.concat(parts) if len(parts) > 1 else parts[0]
+        for proj in hprojs:
+            m = {**meta, 'columns': proj, 'how': how, 'dataset_order': order,
+                 'dataset_dirs': [names[i] for i in order]}
             READ_LOG.clear()
             DD_LOG.clear()
             try:
@@ -324,21 +342,31 @@ def dask_roundtrip(rep, acc, sc, cfg):
             if r.npartitions != len(parts):
                 rep.violation('npartitions:dask', f'{r.npartitions} partitions read, {len(parts)} written', m)
             elif len(parts) > 1:
-                # partition order (numeric, not textual, for >= 11 parts; datasets in path order)
+                # partition order (numeric, not textual, for >= 11 parts; datasets in the given order)
                 js = {0, len(parts) - 1, rng.randrange(len(parts)), min(2, len(parts) - 1), min(10, len(parts) - 1)}
                 for j in sorted(js):
                     pj = list(r.partitions[j].compute()['v']) if (proj is None or 'v' in proj) else None
                     if pj is not None and pj != list(parts[j]['v']):
                         rep.violation('partition-order:dask',
-                                      f'partition {j} of {len(parts)} read holds rows {pj[:6]}, written {list(parts[j]["v"])[:6]}',
+                                      f'{how}: partition {j} of {len(parts)} read holds rows {pj[:6]}, expected '
+                                      f'{list(parts[j]["v"])[:6]} (datasets given as {[names[i] for i in order]})',
                                       {**m, 'partition': j})
                         break
             if list(r.columns) != list(got.columns):
                 rep.violation('meta-columns:dask', f'meta columns {list(r.columns)} differ from the computed {list(got.columns)}', m)
-            compare_frames(rep, acc, exp, got, proj, m, 'GeoDataFrame')
+            if (proj is None or 'v' in proj) and list(got['v']) != list(exp['v']) \
+                    and sorted(got['v']) == sorted(exp['v']):
+                rep.violation('dataset-order:dask',
+                              f'{how}: rows are not the concatenation of the datasets in the order given '
+                              f'{[names[i] for i in order]}',
+                              {**m, 'read_v': [int(x) for x in got['v']][:40], 'expected_v': [int(x) for x in exp['v']][:40]})
+            else:
+                compare_frames(rep, acc, exp, got, proj, m, 'GeoDataFrame')
             rep.evaluations += 1
             rep.count(f'dask:{how}:{len(parts)}parts')
             rep.count(f'dask:{cfg["index_kind"]}:{"all" if proj is None else "proj"}')
+            if nds > 1 and order != sorted(order, key=lambda i: paths[i]):
+                rep.count('dask:list-not-in-path-order')
             rep.nontrivial(('dask', json.dumps(cfg, sort_keys=True, default=str), how, str(proj)))
 
 
@@ -486,7 +514,8 @@ def configs(rep, tier):
                       'npartitions': npart, 'index_kind': didx[j % len(didx)], 'derive': j % 2,
                       'nan_p': rng.choice([0, 0, 0.2]), 'compression': comp[j % 3],
                       'sort': bool(j % 2) and didx[j % len(didx)] not in ('str',),
-                      'ndatasets': 2 if j % 6 == 5 else 1,
+                      'ndatasets': (2 if j % 12 == 5 else 3) if j % 6 == 5 else 1,
+                      'npartitions2': [11, 2, 12, 3][(j // 6) % 4],
                       'seed': rng.randrange(10 ** 9), 'quick': quick})
     return pand, dask_
 
@@ -536,7 +565,7 @@ def run(rep):
                 'plain / sliced / concatenated / taken source arrays) + int, float(NaN) and str payload columns in '
                 'shuffled column order; index kinds ' + ', '.join(U.INDEX_KINDS) + ' (MultiIndex on the pandas '
                 'path only: Dask has none); compression snappy / gzip / None; row groups of 2 rows in a quarter of the files; Dask: 1..12 partitions, sort / no '
-                'sort, one dataset or two by list and by glob; projections: None, one geometry column, reversed, '
+                'sort, one dataset, or two / three datasets (>= 2 partitions each, one with >= 11; directory names whose sorted order differs from the given order, one nested) read as a list in the given, reversed and rotated order and by glob; projections: None, one geometry column, reversed, '
                 'random subset in random order, index column requested explicitly.  dtype names: 7 kinds x 16 '
                 'subtype spellings x case / bracket / suffix / newline mutations + random strings.  Every round '
                 'trip with a distinct (configuration, projection) is non-trivial')
